@@ -181,6 +181,11 @@ def _fallback(model: Model, F: RuleResult):
                 priv = r.attr
                 if recv.startswith("super("):
                     continue
+                par_ = getattr(r, "_parent", None)
+                if isinstance(par_, ast.Compare) and all(isinstance(o_, (ast.Is, ast.IsNot)) for o_ in par_.ops):
+                    # `cls._mm is not LinearOperator._mm`: an identity test of the method objects (how the capability flags are computed) is
+                    # reflective, like getattr(cls, name); nothing is called
+                    continue
                 what = "%s.%s references %s.%s" % (c.name, m.name, recv, priv)
                 # (1) expression-level guard: IfExp ancestor
                 guarded = False
